@@ -29,6 +29,8 @@ type Conf struct {
 	// DetOnly: "directive" = SecRuleEngine DetectionOnly (NewWAF then turns Reject into ProcessPartial), "ctl" = SecRuleEngine On and
 	// ctl:ruleEngine=DetectionOnly in phase 1 (Reject stays): limits and rules only record, nothing may interrupt
 	DetOnly string `json:"detection_only,omitempty"`
+	// RespCtl: a phase-3 rule switches response body access on (ctl:responseBodyAccess=On)
+	RespCtl bool `json:"resp_ctl,omitempty"`
 }
 
 const (
@@ -64,6 +66,10 @@ func (c Conf) Directives() string {
 	fmt.Fprintf(&sb, "SecResponseBodyLimit %d\n", c.RespLimit)
 	fmt.Fprintf(&sb, "SecResponseBodyLimitAction %s\n", c.RespAction)
 	fmt.Fprintf(&sb, "SecResponseBodyMimeType %s\n", c.Mime)
+	if c.RespCtl {
+		// response body access is switched on by a phase-3 rule, after the handler's WriteHeader reached the middleware
+		sb.WriteString("SecAction \"id:8,phase:3,pass,nolog,ctl:responseBodyAccess=On\"\n")
+	}
 	switch c.Rule.Action {
 	case "":
 	case "deny":
